@@ -18,7 +18,8 @@ RULE = ("Histories over {learn(snet, router, dnets), forget-router(snet, router)
         "stale hop. The same message-driven histories run on a node with TWO attached networks (announcements and routed traffic arrive "
         "on either port; knowledge is per (attached network, destination); traffic must leave on a network that knows a next hop, toward "
         "that router). Non-trivial: history in which a learn displaces another router, or a deletion/renumbering follows a learn. "
-        "Distinct by the operation sequence.")
+        "Distinct by the operation sequence."
+        " Also: requests sent while the history is going on (each must have left exactly once when its network is known); routed network-layer messages as learning events.")
 ASSUMPTIONS = [
     "renumbering onto a number already in use is excluded (two ports with one network number violate a BACnet invariant)",
     "index agreement reads RouterInfoCache.routers / path_info (the state named in the property's anchors); if those attributes "
